@@ -437,6 +437,13 @@ func rpcRefreshContract(ctx context.Context, t TransportClient, tp TxPool, signe
 		return RPCRefreshContractResult{}, clientErrf("expected renewal resolution")
 	}
 
+	// check for no funny business: the host must have finalized the
+	// transaction the renter signed
+	if renewalTxn.ID() != hostRenewalTxn.ID() {
+		signer.ReleaseInputs([]types.V2Transaction{renewalTxn})
+		return RPCRefreshContractResult{}, clientErrf("transaction ID mismatch")
+	}
+
 	// validate the host signature
 	if !existing.HostPublicKey.VerifyHash(renewalSigHash, hostRenewal.HostSignature) {
 		signer.ReleaseInputs([]types.V2Transaction{renewalTxn})
@@ -445,10 +452,13 @@ func rpcRefreshContract(ctx context.Context, t TransportClient, tp TxPool, signe
 		signer.ReleaseInputs([]types.V2Transaction{renewalTxn})
 		return RPCRefreshContractResult{}, clientErrf("invalid host contract signature")
 	}
+	// return the contract that was built and signed locally, completed with the
+	// host signature that was verified over it, not the host-supplied copy
+	renewal.NewContract.HostSignature = hostRenewal.NewContract.HostSignature
 	return RPCRefreshContractResult{
 		Contract: ContractRevision{
 			ID:       params.ContractID.V2RenewalID(),
-			Revision: hostRenewal.NewContract,
+			Revision: renewal.NewContract,
 		},
 		RenewalSet: TransactionSet{
 			Basis:        hostTransactionSetResp.Basis,
@@ -1300,6 +1310,13 @@ func RPCRenewContract(ctx context.Context, t TransportClient, tp TxPool, signer 
 		return RPCRenewContractResult{}, clientErrf("expected renewal resolution")
 	}
 
+	// check for no funny business: the host must have finalized the
+	// transaction the renter signed
+	if renewalTxn.ID() != hostRenewalTxn.ID() {
+		signer.ReleaseInputs([]types.V2Transaction{renewalTxn})
+		return RPCRenewContractResult{}, clientErrf("transaction ID mismatch")
+	}
+
 	// validate the host signature
 	if !existing.HostPublicKey.VerifyHash(renewalSigHash, hostRenewal.HostSignature) {
 		signer.ReleaseInputs([]types.V2Transaction{renewalTxn})
@@ -1308,10 +1325,13 @@ func RPCRenewContract(ctx context.Context, t TransportClient, tp TxPool, signer 
 		signer.ReleaseInputs([]types.V2Transaction{renewalTxn})
 		return RPCRenewContractResult{}, clientErrf("invalid host contract signature")
 	}
+	// return the contract that was built and signed locally, completed with the
+	// host signature that was verified over it, not the host-supplied copy
+	renewal.NewContract.HostSignature = hostRenewal.NewContract.HostSignature
 	return RPCRenewContractResult{
 		Contract: ContractRevision{
 			ID:       params.ContractID.V2RenewalID(),
-			Revision: hostRenewal.NewContract,
+			Revision: renewal.NewContract,
 		},
 		RenewalSet: TransactionSet{
 			Basis:        hostTransactionSetResp.Basis,
